@@ -74,6 +74,10 @@ class Fake:
             rq.wfile.write(body)
 
         echo = (json.dumps(entry["headers"]) + " " + rq.path).encode() if sc.echo else b"denied"
+        is_log = path.endswith("/logs/mongodb.gz")
+        if sc.auth == "digest-cluster-only" and not auth and not is_log:
+            # only the cluster description is protected; the log endpoint is open and never sends a challenge
+            return send(401, echo, [("WWW-Authenticate", 'Digest realm="MMS Public API", domain="", nonce="n0nce%d", algorithm=MD5, qop="auth", stale=false' % len(self.log))])
         if sc.auth == "digest" and not auth:
             return send(401, echo, [("WWW-Authenticate", 'Digest realm="MMS Public API", domain="", nonce="n0nce%d", algorithm=MD5, qop="auth", stale=false' % len(self.log))])
         if sc.auth == "basic" and not auth:
